@@ -140,6 +140,21 @@ enum Node<'a> {
 }
 
 /// the table-like / array-like views of a node
+/// rank used by the `rank` comparator: placeholders, then non-integers (all tied), then integers by value
+fn rank_item(i: &Item) -> (u8, i64) {
+    match i {
+        Item::None => (0, 0),
+        Item::Value(Value::Integer(f)) => (2, *f.value()),
+        _ => (1, 0),
+    }
+}
+fn rank_value(v: &Value) -> (u8, i64) {
+    match v {
+        Value::Integer(f) => (2, *f.value()),
+        _ => (1, 0),
+    }
+}
+
 enum View<'a> {
     Table(&'a mut Table),
     Inline(&'a mut InlineTable),
@@ -279,6 +294,31 @@ fn do_op(doc: &mut DocumentMut, f: &[&str]) -> Option<()> {
             View::Inline(t) => t.sort_values(),
             _ => return None,
         },
+        // the caller's closures of coq/Model/Edit.v `tcmp_le` / `icmp_le` (the vocabulary of c16.rs `sortby`)
+        "sortby" => {
+            let kdesc = match f[2] {
+                "kdesc" => true,
+                "rank" => false,
+                _ => return None,
+            };
+            match view(node) {
+                View::Table(t) => {
+                    if kdesc {
+                        t.sort_values_by(|k1, _, k2, _| k2.get().cmp(k1.get()))
+                    } else {
+                        t.sort_values_by(|_, a, _, b| rank_item(a).cmp(&rank_item(b)))
+                    }
+                }
+                View::Inline(t) => {
+                    if kdesc {
+                        t.sort_values_by(|k1, _, k2, _| k2.get().cmp(k1.get()))
+                    } else {
+                        t.sort_values_by(|_, a, _, b| rank_value(a).cmp(&rank_value(b)))
+                    }
+                }
+                _ => return None,
+            }
+        }
         "fmt" => match view(node) {
             View::Table(t) => t.fmt(),
             View::Inline(t) => t.fmt(),
